@@ -1,7 +1,8 @@
 //! C14 B-spline basis: non-negative local partition of unity, correct derivatives.
 use crate::bspline::*;
 use crate::common::*;
-use rateslib::splines::{bspldnev_single_f64, bsplev_single_f64};
+use rateslib::dual::{Dual, Dual2, Gradient1, Gradient2};
+use rateslib::splines::{bspldnev_single_dual, bspldnev_single_dual2, bspldnev_single_f64, bsplev_single_dual, bsplev_single_dual2, bsplev_single_f64};
 use serde::{Deserialize, Serialize};
 use serde_json::json;
 
@@ -64,6 +65,28 @@ pub fn check(case: &Case, idx: u64, acc: &mut Acc) {
                     continue;
                 }
                 let scale = (2.0 * (k as f64 - 1.0).max(1.0) / hmin).powi(m as i32);
+                // the same basis function at a dual-number abscissa: value, and the next one / two derivatives as
+                // first / second order sensitivities (chain rule with gradient 1.5 and second derivative 0.5 on x)
+                {
+                    acc.evals_add(2);
+                    let (w1, w2) = (basis.eval(i, m + 1, *x).f(), basis.eval(i, m + 2, *x).f());
+                    let xd = Dual::try_new(xf, vec!["x".to_string()], vec![1.5]).unwrap();
+                    let xd2 = Dual2::try_new(xf, vec!["x".to_string()], vec![1.5], vec![0.25]).unwrap();
+                    let (s1, s2) = (scale * 2.0 * (k as f64) / hmin, scale * (2.0 * (k as f64) / hmin).powi(2));
+                    let names = vec!["x".to_string()];
+                    let r1 = if m == 0 { bsplev_single_dual(&xd, i, &k, &t, None) } else { bspldnev_single_dual(&xd, i, &k, &t, m, None) };
+                    if !close_scaled(r1.real(), w, 1e-10, scale) || !close_scaled(r1.gradient1(names.clone())[0], 1.5 * w1, 1e-10, 1.5 * s1) {
+                        acc.violate(&format!("dual-abscissa/first-order/{}", place), idx, cj(), json!({"x": xf, "i": i, "m": m, "want": [w, 1.5 * w1]}), json!(format!("{:?}", r1)));
+                    }
+                    let r2 = if m == 0 { bsplev_single_dual2(&xd2, i, &k, &t, None) } else { bspldnev_single_dual2(&xd2, i, &k, &t, m, None) };
+                    let want_h = 0.5 * w1 + 2.25 * w2;
+                    if !close_scaled(r2.real(), w, 1e-10, scale)
+                        || !close_scaled(r2.gradient1(names.clone())[0], 1.5 * w1, 1e-10, 1.5 * s1)
+                        || !close_scaled(r2.gradient2(names.clone())[[0, 0]], want_h, 1e-10, 0.5 * s1 + 2.25 * s2)
+                    {
+                        acc.violate(&format!("dual-abscissa/second-order/{}", place), idx, cj(), json!({"x": xf, "i": i, "m": m, "want": [w, 1.5 * w1, want_h]}), json!(format!("{:?}", r2)));
+                    }
+                }
                 if !close_scaled(d, w, 1e-10, scale) {
                     acc.violate(
                         &format!("derivative/m{}/{}{}", if m + 1 == k { "=k-1".to_string() } else if m >= 3 { ">=3".to_string() } else { format!("={}", m) }, place, if repeated { "/repeated-knots" } else { "" }),
@@ -117,7 +140,8 @@ pub fn run(ctx: &Ctx, replay_file: Option<String>) -> ! {
          of every span (all exactly representable). Oracle: exact rational Cox-de Boor model (polynomial pieces with \
          i128 rational coefficients, symbolic derivatives, right limit, left limit at the right end point): value >= 0 \
          with no tolerance, exactly 0 outside [t_i, t_{i+k}], sum = 1 to 1e-12, m-th derivative equal to the model's, \
-         exactly 0 for m >= k. The model itself is checked to be a partition of unity at every point. Non-trivial: \
+         exactly 0 for m >= k; the dual-abscissa variants (bsplev/bspldnev_single_dual, _dual2) return the same \
+         value with the next one / two derivatives as first / second order sensitivities. The model itself is checked to be a partition of unity at every point. Non-trivial: \
          evaluations exactly at a knot where the function is non-zero.",
         json!({"max_order": ctx.tier.pick(6, 7), "knot_vectors": cs.len()}),
     )
